@@ -234,20 +234,29 @@ def applyAll (v : Variant) (G : Id → List Id) (roots : List Id) (fuel : Nat) :
   | [], s => some s
   | op :: ops, s => (apply v G roots fuel op s).bind (applyAll v G roots fuel ops)
 
-/-- One maintenance operation from a handle with the given view of the packs.  `prune_unreachable_objects` and
-`garbage_collect` iterate the store first, which rescans the pack directory: they do not depend on the view.
-Returns (store, raised `PackFileDisappeared`?). -/
-def applyV (v : Variant) (G : Id → List Id) (roots : List Id) (fuel : Nat) (view : List Pack) (op : Op) (s : Store) :
-    Option (Store × Bool) :=
+/-- the store as the reachability walk of a long-lived handle may see it: objects of cached packs whose files are gone
+can still be READ (not deleted) for as long as those packs stay mapped, i.e. until the handle's next directory rescan -/
+def Store.withStale (s : Store) (extra : List Id) : Store := { s with alts := s.alts ++ extra }
+
+/-- One maintenance operation from a handle with the given view of the packs.  `garbage_collect` rescans the pack
+directory before anything else and does not depend on the view; `prune_unreachable_objects` walks the graph first, and
+that walk may read `extra`: some objects of vanished packs that are still mapped (which ones depends on when the walk's
+lookups trigger a rescan — any subset is allowed for).  Returns (store, raised `PackFileDisappeared`?). -/
+def applyV (v : Variant) (G : Id → List Id) (roots : List Id) (fuel : Nat) (view : List Pack) (extra : List Id)
+    (op : Op) (s : Store) : Option (Store × Bool) :=
   match op with
   | .packLoose now => some (packLooseV v false view s now)
   | .repack now => some (repackV v view s now)
+  | .prune grace now =>
+    (findReachable (s.withStale extra) G roots fuel).map (fun r => (pruneLoose v s r grace now, false))
   | _ => (apply v G roots fuel op s).map (fun s' => (s', false))
 
 /-- a sequence of operations, each from its own (arbitrary) view; an operation that raises leaves the store as it was -/
-def applyAllV (v : Variant) (G : Id → List Id) (roots : List Id) (fuel : Nat) : List (List Pack × Op) → Store → Option Store
+def applyAllV (v : Variant) (G : Id → List Id) (roots : List Id) (fuel : Nat) :
+    List (List Pack × List Id × Op) → Store → Option Store
   | [], s => some s
-  | (view, op) :: ops, s => (applyV v G roots fuel view op s).bind (fun r => applyAllV v G roots fuel ops r.1)
+  | (view, extra, op) :: ops, s =>
+    (applyV v G roots fuel view extra op s).bind (fun r => applyAllV v G roots fuel ops r.1)
 
 /-- the default `grace_period` argument of `garbage_collect` (regenerated from the source) -/
 def defaultGrace : Option Nat := some Dulwich.Gen.GC.defaultGracePeriod
